@@ -19,6 +19,10 @@ model, one per cause; the harness reproduces every one of them on the real serve
   memory carries a blame, i.e. one of the listed causes.  This is what makes the check's
   classifier exhaustive on the model: a loss of the real server that the model does not
   predict has no cause in the list and is reported as a violation.
+* `C19_returned_stored_final`, `C19_last_write_wins`: the durable image of a returned whole
+  entity is the state it has when the statement ends, however many rows return it (the handler
+  stores every occurrence in row order, the last write wins); storing the first occurrence only
+  is refuted (`C19_counterexample_first_occurrence`).
 * `C19_model_refines_spec`: on the histories of `C19_partial` the model satisfies the
   executable specification which the harness evaluates on the real server's observations.
 
@@ -75,6 +79,39 @@ theorem C19_partial (rs : List Req) (hr : ∀ r ∈ rs, r.returnsAll = true)
       rw [← hinv.1 e.src (hnb.1 e.src)] at h1
       rw [← hinv.1 e.tgt (hnb.1 e.tgt)] at h2
       simp [h1, h2, hm]
+
+/-- **The durable image of a returned entity is its final state.**  After a RESP statement,
+every whole entity the reply returns (in one row or many, once or several times) and that is in
+memory is stored exactly as memory holds it when the statement ends. -/
+theorem C19_returned_stored_final (st : State) (s : Stmt) (hf : s.front = .resp) (id : Nat) :
+    (id ∈ s.retN → ((stepQuery st s).mem.nodes.get id).isSome = true →
+        (stepQuery st s).disk.nodes.get id = (stepQuery st s).mem.nodes.get id)
+    ∧ (id ∈ s.retE → ((stepQuery st s).mem.edges.get id).isSome = true →
+        (stepQuery st s).disk.edges.get id = (stepQuery st s).mem.edges.get id) := by
+  constructor
+  · intro h1 h2
+    simp only [stepQuery, hf, persistReturned] at h2 ⊢
+    rw [persistEdge_nodes, persistNode_nodes]
+    simp [h1, h2]
+  · intro h1 h2
+    simp only [stepQuery, hf, persistReturned] at h2 ⊢
+    rw [persistEdge_edges, persistNode_edges]
+    simp [h1, h2]
+
+/-- Row by row the handler stores every occurrence in order and **the last write wins**: if the
+last row that returns the entity carries snapshot `d`, `d` is what is stored; so when that row is
+also the last one that changes it, the stored image is the final state. -/
+theorem C19_last_write_wins (occ post : List (Nat × Nat)) (t : Tab Nat) (id d : Nat)
+    (hpost : ∀ p ∈ post, p.1 ≠ id) :
+    (persistOcc t (occ ++ (id, d) :: post)).get id = some d :=
+  persistOcc_last occ post t id d hpost
+
+/-- "Persisted once per statement, first occurrence wins" is wrong: the hub returned by three
+rows with `visits` = 1, 2, 3 (snapshots 11, 12, 13) next to three leaves. -/
+theorem C19_counterexample_first_occurrence :
+    (persistOcc [] [(1, 11), (5, 50), (1, 12), (6, 60), (1, 13), (7, 70)]).get 1 = some 13
+      ∧ (persistOccFirst [] [(1, 11), (5, 50), (1, 12), (6, 60), (1, 13), (7, 70)]).get 1 = some 11 := by
+  decide
 
 theorem specDurableAt_map {α : Type} [DecidableEq α] (ids : List Nat) (f g : Nat → Option α)
     (h : ∀ id, f id = g id) (k : Nat) :
